@@ -253,7 +253,12 @@ def run(ctx):
                         some_targets.append((bb, arms[1]))
                     elif 0 in arms:
                         some_targets.append((bb, t["tgts"][-1]))
-        pend = [(sb, tt, ff) for sb, sym, tt, ff in bool_switches(f) if render(sym) == "self.flushing_merges" and any(f.edge_dominates(pb, pt, sb) for pb, pt in some_targets)]
+        def is_flush_flag(sb):
+            # the field itself, or a local that was filled from it (`let from_merge = self.flushing_merges;`)
+            with f.deep():
+                d = render(f.sym_operand(f.blocks[sb]["term"]["o"]))
+            return d == "self.flushing_merges"
+        pend = [(sb, tt, ff) for sb, sym, tt, ff in bool_switches(f) if (render(sym) == "self.flushing_merges" or is_flush_flag(sb)) and any(f.edge_dominates(pb, pt, sb) for pb, pt in some_targets)]
         ctx.check(len(pend) >= 1, "DOM", "C03:DOM:flushing-test", "the pending branch distinguishes own entries from flushed merge entries", "next_key_seed no longer distinguishes flushed merge entries from own entries", config, ctx.where(f))
         for sb, tt, ff in pend:
             reach = f.reachable([tt], avoid=loop_heads)
@@ -271,6 +276,35 @@ def run(ctx):
                     okd = not (set(delivered) & r2) and not (set(errs) & r2)
             ctx.check(okd, "DOM", "C03:DOM:flushing-skips-seen", "own keys silently override merged ones (already-seen keys are skipped while flushing)",
                       "while flushing merges an already-seen key is delivered or reported instead of being skipped", config, ctx.where(f, sb))
+        # the "we are serving merge batches" state lasts until the access answers None: it is switched off only on paths that
+        # deliver nothing more.  Switched off after the first batch, every earlier `<<` entry of the mapping goes through the
+        # duplicate-key policy (spurious duplicate error under Error; under LastWins the earlier `<<` wins).
+        delivered_all = [x for x, i, adt, var, fl, ops, s_ in aggregates(f) if s_["p"]["l"] == 0 and var == "Ok" and render(f.sym_operand(s_["rv"]["ops"][0])).find("Some") >= 0]
+        with f.deep():
+            delivered_all = []
+            for x, i, adt, var, fl, ops, s_ in aggregates(f):
+                if s_["p"]["l"] == 0 and var == "Ok":
+                    v = f.sym_operand(s_["rv"]["ops"][0])
+                    if v[0] == "aggr" and v[2] == "Some":
+                        delivered_all.append(x)
+        nr = 0
+        for bb, i, s_ in f.stmts():
+            if s_["k"] == "assign" and s_["p"]["pr"] and render(f.sym_place(s_["p"])) == "self.flushing_merges":
+                v = f.sym_rvalue(s_["rv"])
+                if v == ("const", False, "bool"):
+                    nr += 1
+                    reach = f.reachable([bb])
+                    ctx.check(not (set(delivered_all) & reach), "DOM", "C03:DOM:flushing-ends-only-at-none#%d" % nr, "`flushing_merges` is switched off only where nothing more is delivered",
+                              "next_key_seed switches `flushing_merges` off on a path that goes on delivering keys: the merge batches served after it are treated as own entries and go through the duplicate-key policy", config, ctx.where(f, bb))
+        ctx.floor("DOM.flushing-resets", nr, 1, config)
+        # and every batch is enqueued in that state: the enqueue helper is called only where the flag is (or is about to be) true
+        enq = [bb for bb, t in f.calls() if last_seg(fx.callee(t)) == "enqueue_next_merge_batch"]
+        sets_true = [bb for bb, i, s_ in f.stmts() if s_["k"] == "assign" and s_["p"]["pr"] and render(f.sym_place(s_["p"])) == "self.flushing_merges" and f.sym_rvalue(s_["rv"]) == ("const", True, "bool")]
+        flag_true_edges = [(sb, tt) for sb, sym, tt, ff in bool_switches(f) if render(sym) == "self.flushing_merges"]
+        for k, eb in enumerate(enq, 1):
+            oke = any(f.dominates(sb, eb) for sb in sets_true) or any(f.edge_dominates(sb, tt, eb) for sb, tt in flag_true_edges)
+            ctx.check(oke, "DOM", "C03:DOM:batch-enqueued-while-flushing#%d" % k, "a merge batch is enqueued only while `flushing_merges` is set", "next_key_seed enqueues a merge batch on a path where `flushing_merges` is not known to be set: its entries are served as own entries", config, ctx.where(f, eb))
+        ctx.floor("DOM.enqueue-sites", len(enq), 2, config)
         # ... which only works if every own key that reaches the visitor was recorded in the seen-set first, under every policy
         inserts = [bb for bb, t in f.calls() if last_seg(fx.callee(t)) == "insert" and render(f.sym_operand(t["args"][0])) == "self.seen"]
         nd = 0
